@@ -132,6 +132,7 @@ type sim struct {
 	crashPlan  []crashPlan
 	crashesFired int
 	tainted      bool
+	walNotReplayed bool // some restart came back without its WAL-synced own votes (anomaly probes); names a later stall
 
 	// weights (depend on the property under check)
 	w weights
@@ -171,7 +172,7 @@ func (s *sim) fail(prop, oracle, format string, args ...any) {
 		}
 		s.r.Known = append(s.r.Known, v)
 		s.event("KNOWN %s/%s", prop, oracle)
-		if strings.HasPrefix(oracle, "own_votes_not_replayed") || strings.HasPrefix(oracle, "restart_failed") {
+		if strings.HasPrefix(oracle, "restart_failed") {
 			// a node that forgot its votes cannot re-gossip them and may be unable to sign again in those
 			// rounds: the rest of the run cannot decide liveness
 			s.tainted = true
@@ -664,6 +665,7 @@ func (s *sim) deliver(to *node, from int, m *netMsg) {
 	switch msg := m.msg.(type) {
 	case *cons.VoteMessage:
 		v := msg.Vote.Copy()
+		s.or.notePrevote(to, v)
 		pre := s.or.preVote(to, string(peer), v)
 		to.cs.AddVote(v, peer)
 		synctest.Wait()
@@ -1219,8 +1221,10 @@ func (s *sim) checkLiveness() {
 		prop = "C33"
 	}
 	oracle, why := s.classifyStall()
-	if oracle != "liveness" {
-		prop = "C31" // the analysed stall patterns are consensus-liveness findings whatever else happened in the run
+	if strings.HasPrefix(oracle, "liveness_") {
+		prop = "C31" // the analysed consensus stall patterns are C31 findings whatever else happened in the run
+	} else if strings.HasPrefix(oracle, "stall_after_restart") {
+		prop = "C33"
 	}
 	s.liveStage = 3
 	s.stop = true
@@ -1260,6 +1264,23 @@ func (s *sim) classifyStall() (oracle, why string) {
 					return "liveness_wedged_after_leaving_commit_step", fmt.Sprintf("[n%d holds +2/3 precommits for %X at %d/%d (CommitRound set) but was moved out of RoundStepCommit to %d/%d/%d by +2/3-any votes of a later round; ProposalBlockParts was reset and nothing re-enters the commit] ", n.id, id.Hash, rs.Height, rs.CommitRound, rs.Height, rs.Round, rs.Step)
 				}
 			}
+		}
+	}
+	// (3) validators that restarted into the stuck height without their WAL (see the anomaly probes): they neither
+	// re-send the votes they had signed nor can they sign other ones for those rounds (privval: same HRS)
+	for _, n := range s.nodes {
+		if !n.up {
+			continue
+		}
+		rs := n.cs.GetRoundState()
+		if why, ok := n.noReplay[rs.Height]; ok && n.bs.Height() < rs.Height {
+			o := "stall_after_restart_in_first_height"
+			if why == "_no_end_height_marker" {
+				o = "stall_after_restart_without_end_height_marker"
+			} else if why != "_first_height" {
+				continue
+			}
+			return o, fmt.Sprintf("[n%d restarted into height %d without WAL catch-up replay (%s): its pre-crash votes are neither in its vote sets (not re-gossiped) nor can it sign different ones for the same rounds] ", n.id, rs.Height, strings.TrimPrefix(why, "_"))
 		}
 	}
 	return "liveness", ""
